@@ -18,7 +18,7 @@ PROP = "C07"
 THEOREMS = [
     "handler_roundtrip", "handler_roundtrip_full_unsound",
     "dv_apply_spec", "scan_any_batching", "delete_exact_rowset",
-    "compaction_output_perm", "compaction_keeps_key_order",
+    "compaction_output_perm", "compaction_keeps_key_order", "keyLe_totalPreorder", "compaction_keeps_key_order_keyLe",
     "delete_exact", "compaction_invisible", "vacuum_invisible", "history_exact",
     "deleted_never_reappears", "survivor_never_lost",
 ]
